@@ -875,3 +875,87 @@ Definition json_decode (json_loads : list Z -> option value) (defaults : list (k
          | None => None
          end
   end.
+
+(* ------------------------------------------------------------------ numpy_dtype *)
+(* StructCodec.numpy_dtype (_process_schema_node / _convert_binary_format): the dtype *spec*
+   handed to np.dtype, for the modified (ordered) schema.  FORMAT_TO_DTYPE is the regenerated
+   table c12_format_to_dtype (format char -> kind char, itemsize).  numpy's own rule for a packed
+   structured dtype (offset of a field = sum of the itemsizes before it; a sub-array is n
+   consecutive items) is [dt_layout]; it is compared with the real dtype on every run. *)
+Inductive dtype :=
+| DLeaf (kind : Z) (size : Z)            (* 'i' 'u' 'f' '?' 'S' 'V' as ASCII codes *)
+| DSub (n : Z) (d : dtype)
+| DStruct (fs : list (key * dtype)).
+
+Inductive nres := NOk (d : dtype) | NValueErr | NKeyErr.
+
+Fixpoint lookup_fmt (c : Z) (tbl : list (Z * (Z * Z))) : option (Z * Z) :=
+  match tbl with
+  | [] => None
+  | (c', e) :: r => if c =? c' then Some e else lookup_fmt c r
+  end.
+
+Definition np_leaf (t : jty) (f : option bfmt) : nres :=
+  match (match t, f with TNull, None => Some (BPad 0) | _, _ => f end) with
+  | None => NKeyErr                                   (* node["binaryFormat"] *)
+  | Some (BPad n) => if n <? 0 then NValueErr else NOk (DLeaf 86 n)
+  | Some (BStr n) => if n <? 0 then NValueErr else NOk (DLeaf 83 n)
+  | Some (BPas _) => NValueErr                        (* Pascal strings are not supported *)
+  | Some f => match lookup_fmt (bchar f) c12_format_to_dtype with
+              | Some (kind, sz) => NOk (DLeaf kind sz)
+              | None => NValueErr
+              end
+  end.
+
+Inductive fres := FOk (fs : list (key * dtype)) | FErr (e : nres).
+
+Fixpoint np_dtype (s : schema) : nres :=
+  match s with
+  | SLeaf t f _ => np_leaf t f
+  | SArr (AFixed n) it =>
+      match np_dtype it with
+      | NOk d => if n <? 0 then NValueErr else NOk (DSub n d)
+      | e => e
+      end
+  | SArr _ _ => NValueErr                             (* only fixed-length arrays *)
+  | SObj _ ps =>
+      match (fix go (ps : list prop) : fres :=
+               match ps with
+               | [] => FOk []
+               | (k, _, sub) :: r =>
+                   match np_dtype sub with
+                   | NOk d => match go r with FOk fs => FOk ((k, d) :: fs) | FErr e => FErr e end
+                   | e => FErr e
+                   end
+               end) ps with
+      | FOk fs => NOk (DStruct fs)
+      | FErr e => e
+      end
+  end.
+
+Definition np_dtype_top (t : top) : nres :=
+  if t_nullable t then NValueErr else np_dtype (t_schema t).
+
+Fixpoint dt_itemsize (d : dtype) : Z :=
+  match d with
+  | DLeaf _ sz => sz
+  | DSub n d => n * dt_itemsize d
+  | DStruct fs => fold_right (fun (e : key * dtype) acc => dt_itemsize (snd e) + acc) 0 fs
+  end.
+
+(* leaves of the packed dtype in memory order: (offset, itemsize, kind) *)
+Fixpoint dt_layout (d : dtype) (base : Z) : list (Z * Z * Z) :=
+  match d with
+  | DLeaf k sz => [(base, sz, k)]
+  | DSub n d =>
+      flat_map (fun i => dt_layout d (base + Z.of_nat i * dt_itemsize d)) (seq 0 (Z.to_nat n))
+  | DStruct fs =>
+      (fix go (fs : list (key * dtype)) (base : Z) : list (Z * Z * Z) :=
+         match fs with
+         | [] => []
+         | (_, d) :: r => dt_layout d base ++ go r (base + dt_itemsize d)
+         end) fs base
+  end.
+
+Definition layout_eqb (a b : list (Z * Z * Z)) : bool :=
+  list_eqb (fun x y => (fst (fst x) =? fst (fst y)) && (snd (fst x) =? snd (fst y)) && (snd x =? snd y)) a b.
